@@ -121,3 +121,9 @@ impl<T, U: VFrom<T>> VTryFrom<T> for U {
     open spec fn v_try_from_post(value: T, r: Result<U, core::convert::Infallible>) -> bool { r is Ok && U::v_from_post(value, r->Ok_0) }
     fn v_try_from(value: T) -> (r: Result<U, core::convert::Infallible>) { Ok(U::v_from(value)) }
 }
+
+// ---- T3 / R7 (generic form): the allocation idiom `repeat(x).take(n).collect::<Vec<T>>()`
+#[verifier::external_body]
+pub fn verif_repeat_take_collect_g<T: Copy>(x: T, n: usize) -> (v: Vec<T>)
+    ensures v@.len() == n, forall|k: int| 0 <= k < n ==> v@[k] == x
+{ core::iter::repeat(x).take(n).collect() }
